@@ -107,6 +107,7 @@ def Rodas(dae: nDAE,
 
     if haveEvent:
         value, isterminal, direction = events(t, y0)
+        valueold = value
     stop = 0
     nevent = -1
     te = np.zeros((10001,))
@@ -219,7 +220,9 @@ def Rodas(dae: nDAE,
             stats.nstep = stats.nstep + 1
             # events
             if haveEvent:
-                valueold = value
+                # a component that is exactly zero at a step end keeps the last nonzero value as its reference:
+                # -1 -> 0 -> +1 is a sign change (value * valueold would be 0 on both steps and hide it)
+                valueold = np.where(np.asarray(value) == 0, valueold, value)
                 value, isterminal, direction = events(t, ynew)
                 value_save = value
                 ff = np.where(value * valueold < 0)[0]
